@@ -5,6 +5,10 @@ type nat =
 | O
 | S of nat
 
+type ('a, 'b) sum =
+| Inl of 'a
+| Inr of 'b
+
 val fst : ('a1 * 'a2) -> 'a1
 
 val snd : ('a1 * 'a2) -> 'a2
@@ -18,7 +22,11 @@ type comparison =
 | Lt
 | Gt
 
+val compOpp : comparison -> comparison
+
 val add : nat -> nat -> nat
+
+val sub : nat -> nat -> nat
 
 type positive =
 | XI of positive
@@ -33,6 +41,13 @@ type z =
 | Z0
 | Zpos of positive
 | Zneg of positive
+
+module Nat :
+ sig
+  val eqb : nat -> nat -> bool
+
+  val max : nat -> nat -> nat
+ end
 
 module Pos :
  sig
@@ -51,6 +66,8 @@ module Coq_Pos :
   val add_carry : positive -> positive -> positive
 
   val pred_double : positive -> positive
+
+  val pred_N : positive -> n
 
   type mask = Pos.mask =
   | IsNul
@@ -71,6 +88,10 @@ module Coq_Pos :
 
   val iter : ('a1 -> 'a1) -> 'a1 -> positive -> 'a1
 
+  val div2 : positive -> positive
+
+  val div2_up : positive -> positive
+
   val compare_cont : comparison -> positive -> positive -> comparison
 
   val compare : positive -> positive -> comparison
@@ -84,6 +105,8 @@ module Coq_Pos :
   val coq_lor : positive -> positive -> positive
 
   val coq_land : positive -> positive -> n
+
+  val ldiff : positive -> positive -> n
 
   val shiftl : positive -> n -> positive
 
@@ -99,6 +122,8 @@ module N :
   val succ_double : n -> n
 
   val double : n -> n
+
+  val succ_pos : n -> positive
 
   val add : n -> n -> n
 
@@ -132,6 +157,8 @@ module N :
 
   val coq_land : n -> n -> n
 
+  val ldiff : n -> n -> n
+
   val shiftl : n -> n -> n
 
   val shiftr : n -> n -> n
@@ -143,7 +170,33 @@ module N :
 
 module Z :
  sig
+  val double : z -> z
+
+  val succ_double : z -> z
+
+  val pred_double : z -> z
+
+  val pos_sub : positive -> positive -> z
+
+  val add : z -> z -> z
+
   val opp : z -> z
+
+  val sub : z -> z -> z
+
+  val mul : z -> z -> z
+
+  val pow_pos : z -> positive -> z
+
+  val pow : z -> z -> z
+
+  val compare : z -> z -> comparison
+
+  val leb : z -> z -> bool
+
+  val ltb : z -> z -> bool
+
+  val geb : z -> z -> bool
 
   val eqb : z -> z -> bool
 
@@ -154,7 +207,25 @@ module Z :
   val of_nat : nat -> z
 
   val of_N : n -> z
+
+  val pos_div_eucl : positive -> z -> z * z
+
+  val div_eucl : z -> z -> z * z
+
+  val div : z -> z -> z
+
+  val modulo : z -> z -> z
+
+  val div2 : z -> z
+
+  val shiftl : z -> z -> z
+
+  val shiftr : z -> z -> z
+
+  val coq_land : z -> z -> z
  end
+
+val nth : nat -> 'a1 list -> 'a1 -> 'a1
 
 val nth_error : 'a1 list -> nat -> 'a1 option
 
@@ -168,7 +239,11 @@ val fold_left : ('a1 -> 'a2 -> 'a1) -> 'a2 list -> 'a1 -> 'a1
 
 val existsb : ('a1 -> bool) -> 'a1 list -> bool
 
+val filter : ('a1 -> bool) -> 'a1 list -> 'a1 list
+
 val repeat : 'a1 -> nat -> 'a1 list
+
+val wrap32 : z -> z
 
 val split_at : z -> z list -> z list -> z list list * z list
 
@@ -236,6 +311,10 @@ val ideal : (n -> n) -> n -> n -> n
 
 val next : n -> n -> n
 
+val find_loop : nat -> 'a1 entry list -> n -> n -> n -> n option res
+
+val find : (n -> n) -> 'a1 ptable -> n -> n option res
+
 val foi_loop :
   nat -> 'a1 ptable -> n -> 'a1 entry -> ((bool * n) * 'a1 ptable) res
 
@@ -277,9 +356,7 @@ val double_if_needed : 'a1 -> (n -> n) -> 'a1 auto -> 'a1 auto res
 val auto_find_or_insert :
   'a1 -> (n -> n) -> 'a1 auto -> 'a1 entry -> ((bool * n) * 'a1 auto) res
 
-val dedupe_has_reserved_guard : bool
-
-val dedupe_reserved_key : n
+val auto_find : (n -> n) -> 'a1 auto -> n -> n option res
 
 type dtable = unit auto
 
@@ -291,41 +368,152 @@ val dedupe_init : dstate
 
 val seen_pass : bool -> n -> dstate -> n -> (bool * dstate) res
 
-val dedupe_pass : dstate -> n -> (bool * dstate) res
-
-val filter_loop : ('a1 -> n) -> dstate -> 'a1 list -> 'a1 list res
-
-val dedupe : ('a1 -> n) -> 'a1 list -> 'a1 list res
-
-type pstatus =
-| PDone
-| PUnbalanced
-| PAbort
-
-val par_loop :
-  ('a1 -> n) -> ('a1 -> n) -> dstate -> dstate -> 'a1 list -> 'a1 list ->
-  (pstatus * ('a1 * 'a1) list) res
-
-val dedupe_par :
-  ('a1 -> n) -> ('a1 -> n) -> 'a1 list -> 'a1 list -> (pstatus * ('a1 * 'a1)
-  list) res
+val seen_find : bool -> n -> dstate -> n -> bool res
 
 val mem : n -> n list -> bool
 
 val first_occ_from : ('a1 -> n) -> n list -> 'a1 list -> 'a1 list
 
-val first_occ : ('a1 -> n) -> 'a1 list -> 'a1 list
-
-val par_spec_from :
-  ('a1 -> n) -> ('a1 -> n) -> n list -> n list -> ('a1 * 'a1) list ->
-  ('a1 * 'a1) list
-
-val par_spec :
-  ('a1 -> n) -> ('a1 -> n) -> ('a1 * 'a1) list -> ('a1 * 'a1) list
-
 val newline : z
 
-val dedupe_tool : (z list -> n) -> z list -> z list res
+val subtract_has_reserved_guard : bool
 
-val dedupe_par_tool :
-  (z list -> n) -> z list -> z list -> ((pstatus * z list) * z list) res
+val cc_has_reserved_guard : bool
+
+val cc_magic : z list
+
+val kSpaces : bool list
+
+val sc_control_bound : z
+
+val iNV_TABLE : z list
+
+val dec_val0 : z
+
+val dec_valb0 : z
+
+val dec_pad_char : z
+
+val dec_reject : z
+
+val dec_shift : z
+
+val dec_valb_add : z
+
+val dec_out_bound : z
+
+val dec_mask : z
+
+val dec_valb_sub : z
+
+val inv : z -> z
+
+val sel : z -> z -> z -> z
+
+type dres =
+| DOk of z list
+| DBadChar of z
+| DLengthError
+
+val count_padding_rev : z list -> nat
+
+val count_padding : z list -> nat
+
+val dec_loop : z list -> z -> z -> dres
+
+val base64_decode : z list -> dres
+
+type line = z list
+
+val long_keep : n -> line -> bool
+
+val remove_long_lines : n -> line list -> line list
+
+val trail : z -> bool
+
+val decode1 : z list -> (z * z list) option
+
+val wf_utf8_fuel : nat -> z list -> bool
+
+val wf_utf8 : z list -> bool
+
+val remove_invalid_utf8 : line list -> line list
+
+val remove_invalid_utf8_base64 : line list -> line list option
+
+val subtract_load : (line -> n) -> dstate -> line list -> dstate res
+
+val subtract_filter : (line -> n) -> dstate -> line list -> line list res
+
+val subtract_lines : (line -> n) -> line list -> line list -> line list res
+
+val is_space : z -> bool
+
+val drop_spaces : line -> line
+
+val strip_spaces : line -> line
+
+val starts_with : line -> line -> bool
+
+val is_new_line : (line -> n) -> dstate -> line -> (bool * dstate) res
+
+val cc_load : (line -> n) -> dstate -> line list -> dstate res
+
+val cc_filter : (line -> n) -> dstate -> line list -> line list res
+
+val commoncrawl_dedupe :
+  (line -> n) -> line list -> line list -> line list res
+
+val subtract_spec : (line -> n) -> line list -> line list -> line list
+
+val cc_spec : (line -> n) -> line list -> line list -> line list
+
+type sc_options = { sc_min_chars : n; sc_character_run : n;
+                    sc_min_punct_sample_size : n; sc_nscripts : nat }
+
+val two0 : n
+
+type sc_state = { counts : (n -> n); punct : n; spaces : n; total : n;
+                  previous : z; previous_run : n }
+
+val sc_init : sc_state
+
+val sc_char :
+  (z -> n option) -> (z -> bool) -> (z -> bool) -> sc_options -> sc_state ->
+  z -> sc_state option
+
+val sc_loop :
+  (z -> n option) -> (z -> bool) -> (z -> bool) -> sc_options -> nat ->
+  sc_state -> z list -> sc_state option
+
+val sc_filter :
+  (z -> n option) -> (z -> bool) -> (z -> bool) -> n -> n -> (n -> n -> bool)
+  -> (n -> n -> bool) -> ((n -> n) -> n -> bool) -> sc_options -> line -> bool
+
+val split_first : z -> z list -> z list -> z list * z list option
+
+val skip_fields : nat -> z -> z list -> z list option
+
+val take_fields :
+  (z -> n option) -> (z -> bool) -> (z -> bool) -> n -> n -> (n -> n -> bool)
+  -> (n -> n -> bool) -> ((n -> n) -> n -> bool) -> sc_options -> nat -> nat
+  option -> z -> z list -> (bool, z list) sum
+
+val individual_fields :
+  (z -> n option) -> (z -> bool) -> (z -> bool) -> n -> n -> (n -> n -> bool)
+  -> (n -> n -> bool) -> ((n -> n) -> n -> bool) -> sc_options -> (nat * nat
+  option) list -> nat -> z -> z list -> bool
+
+val sc_line_keep :
+  (z -> n option) -> (z -> bool) -> (z -> bool) -> n -> n -> (n -> n -> bool)
+  -> (n -> n -> bool) -> ((n -> n) -> n -> bool) -> sc_options -> (nat * nat
+  option) list -> z -> line -> bool
+
+val simple_cleaning :
+  (z -> n option) -> (z -> bool) -> (z -> bool) -> n -> n -> (n -> n -> bool)
+  -> (n -> n -> bool) -> ((n -> n) -> n -> bool) -> sc_options -> (nat * nat
+  option) list -> z -> line list -> line list
+
+val lines_of : z list -> line list
+
+val bytes_of : line list -> z list
